@@ -376,6 +376,19 @@ class DCFamilySwitched(DCFamilyBase):
   items: Any = ('now', 'a', 'plain', 'default')
 
 
+def make_default_variant(d):
+  """Function objects created by ONE nested def (one code object) whose defaults differ."""
+
+  def variant(x=None, k=d, /, j=(d, d), *va, z=d):
+    return _r.rec('variant', locals())
+
+  return variant
+
+
+DEFAULT_VARIANTS = [make_default_variant(d) for d in ('A', 'B', 3)]
+LAMBDA_VARIANTS = [lambda x=None, i=i: _r.rec('lambda_variant', {'x': x, 'i': i}) for i in (10, 20, 30)]
+
+
 def two(x=None, y=None):
   return _r.rec('two', locals())
 
